@@ -137,7 +137,11 @@ def run_p(report: Report, prop: str, tier: str, targets: Optional[List[str]] = N
             tag = "inlined at call sites (its real body is executed by the caller's proof)"
         report.functions.append({"function": t, "file": f"{r['path']}:{r['lineno']}", "sha256": r["sha256"][:16], "tag": tag, "paths": r["paths"], "obligations": len(r["verdicts"]), "solver_ms": r["solver_ms"]})
         if r["status"] == "tool-error":
-            report.tool_error(f"{t}: {r['error'].splitlines()[0] if r['error'] else ''}")
+            first = r["error"].splitlines()[0] if r["error"] else ""
+            if first.startswith(("Unsupported", "SidecarError", "SourceError")):
+                report.drift(f"{t}: the contract does not fit this version of the function, it is not under proof in this run ({first})")
+            else:
+                report.tool_error(f"{t}: {first}")
             continue
         for a in r["assumed_calls"]:
             if a not in report.assumptions:
@@ -178,7 +182,7 @@ def run_p(report: Report, prop: str, tier: str, targets: Optional[List[str]] = N
                 if not (name.startswith("C0") or name.startswith("C1") or name.startswith("raises only")):
                     continue
                 if names.get(name, 0) == 0:
-                    report.tool_error(f"{t}: obligation `{name}` of the committed list was not generated (sidecar or engine drift)")
+                    report.drift(f"{t}: obligation `{name}` of the committed list is not generated for this version of the function")
         if r["status"] == "ok" and not r["verdicts"]:
             report.tool_error(f"{t}: zero obligations generated")
     report.extra.setdefault("obligation_names", {}).update(current)
